@@ -88,7 +88,8 @@ class TraceChecker:
             if self.st(t) in ("fresh", "parked"):
                 self.status[t] = "queued"
                 hs.append(t)
-        return hs[::-1] if rev else hs
+        # create_suspend_point keeps the order in which the coroutines were made ready (/repo fix 34c6158; the pinned code reversed it)
+        return hs
 
     def enqueue(self, hs):
         for h in hs:
